@@ -13,7 +13,8 @@ bin sum|mean <s> <dims> <vals>                  -> ok [..] | err value
 bins sum|mean <ss> <dims> <vals>                per-axis factors `ss` (same order as dims, slowest first)
 binpix <ss> <dims> <vals>                       the closed-form index map `boxSums` at every coarse pixel (= bins sum)
 binw <s> <dims> <vals> <weights>                weighted mean (non-regular grids)
-bint <s> <dims> <ncomp> <vals>                  tensor field, statistic sum
+bint <s> <dims> <ncomp> <vals>                  tensor field, statistic sum (component-wise `binTensor`)
+bintl sum|mean <ss> <dims> <tshape> <vals>      tensor field as the code reshapes it (`binTensorL`: tensor axes in front, unbinned)
 ss mean|sum <c0> <c> <q> <sep> <ns>             evaluate_supersampled of c0+Σc·x+Σq·x²
 ```
 -/
@@ -114,6 +115,17 @@ def step (st : St) : List String → St × String
       match binTensor? s dims ncomp vals with
       | some r => (st, "ok " ++ showRatList r)
       | none => (st, "err value")
+    | _, _, _, _ => (st, "bad-op")
+  | ["bintl", stat, ss, dims, tshape, vals] =>
+    match parseNatList? ss, parseNatList? dims, parseNatList? tshape, parseRatList? vals with
+    | some ss, some dims, some tshape, some vals =>
+      if ss.any (· = 0) || ss.length ≠ dims.length then (st, "bad-op") else
+      if vals.length ≠ size tshape * fineSizes ss dims then (st, "err value") else
+      let r := binTensorL ss dims tshape vals
+      match stat with
+      | "sum" => (st, "ok " ++ showRatList r)
+      | "mean" => (st, "ok " ++ showRatList (r.map (· / ((ss.foldr (· * ·) 1 : Nat) : Rat))))
+      | _ => (st, "bad-op")
     | _, _, _, _ => (st, "bad-op")
   | ["ss", stat, c0, c, q, sep, ns] =>
     match parseRat? c0, parseRatList? c, parseRatList? q, parseRatLists? sep, parseNatList? ns with
